@@ -9,7 +9,10 @@ def sig(prop):
         evs = rj["trace"][:rj["at"] + 1]
         cancelled = any(e.get("ev") == "cancel" for e in evs)
         req_closed = any(e.get("ev") == "ret" and e.get("op") == "closereq" for e in evs)
-        if cancelled and not req_closed and (ev.get("ev") == "hstuck" or
+        # the request was really under way (a Send went through) before the context ended
+        first_cancel = next((i for i, e in enumerate(evs) if e.get("ev") == "cancel"), len(evs))
+        in_flight = any(e.get("ev") == "ret" and e.get("op") == "send" and e.get("res") == "ok" for e in evs[:first_cancel])
+        if cancelled and in_flight and not req_closed and (ev.get("ev") == "hstuck" or
                                             (ev.get("ev") == "stuck" and ev.get("op") in ("recv", "closeresp"))):
             # finding 10: net/http's HTTP/2 client cannot notice the cancellation while it is blocked reading the
             # (idle, still open) request pipe, and the library never closes that pipe on cancellation
